@@ -161,9 +161,19 @@ func configTable(c *hx.Ctx, kind string) {
 		case (err == nil) != row.Ok:
 			c.Violation(sig, fmt.Sprintf("%s configuration %+v: Verify returned %v, the decision table says ok=%v", kind, row.Cfg, err, row.Ok), replay)
 		case err == nil:
-			if gotDict != dictToken(row.Dict) || (kind != "reader" && (gotBuf != row.Buf || gotProps == nil || gotProps.LC != row.Props[0] || gotProps.LP != row.Props[1] || gotProps.PB != row.Props[2])) || (kind == "xz" && gotCheck != row.Check) {
+			// Zero fields must have been replaced by values that are themselves valid; explicitly set
+			// fields must be left alone. Which default is chosen is the library's business, except for
+			// the documented ones (check CRC64; the table's values for the others are what the code
+			// does today and are not asserted).
+			explicitDict := row.Cfg.Dict != "0"
+			badDict := gotDict < 4096 || (explicitDict && gotDict != dictToken(row.Cfg.Dict))
+			badBuf := kind != "reader" && (gotBuf < 273 || (row.Cfg.Buf != 0 && gotBuf != row.Cfg.Buf))
+			badProps := kind != "reader" && (gotProps == nil || gotProps.LC < 0 || gotProps.LC > 8 || gotProps.LP < 0 || gotProps.LP > 4 || gotProps.PB < 0 || gotProps.PB > 4 ||
+				(props != nil && (gotProps.LC != props.LC || gotProps.LP != props.LP || gotProps.PB != props.PB)))
+			badCheck := kind == "xz" && gotCheck != row.Check
+			if badDict || badBuf || badProps || badCheck {
 				sig["kind"] = "config-defaults"
-				c.Violation(sig, fmt.Sprintf("%s configuration %+v: defaults after Verify are dict=%d buf=%d props=%v check=%d, the table says dict=%s buf=%d props=%v check=%d", kind, row.Cfg, gotDict, gotBuf, gotProps, gotCheck, row.Dict, row.Buf, row.Props, row.Check), replay)
+				c.Violation(sig, fmt.Sprintf("%s configuration %+v: after Verify dict=%d buf=%d props=%v check=%d (explicit fields must be kept, zero fields replaced by valid values, default check CRC64)", kind, row.Cfg, gotDict, gotBuf, gotProps, gotCheck), replay)
 			}
 		}
 	}
